@@ -469,9 +469,9 @@ class Analysis:
                 d = {}
                 for i, o in enumerate(rv.ops):
                     d[fs[i] if i < len(fs) else str(i)] = oe(o)
-                return E("agg", "%s::%s" % (j["adt"], j["variant"]), d)
+                return E("agg", "%s::%s" % (j["adt"], j["variant"]), d, site=bb)
             d = {str(i): oe(o) for i, o in enumerate(rv.ops)}
-            return E("agg", j["agg"] + (":" + j["fn"] if "fn" in j else ""), d)
+            return E("agg", j["agg"] + (":" + j["fn"] if "fn" in j else ""), d, site=bb)
         return E("unknown", j.get("dbg", k))
 
     # ---- alias resolution ---------------------------------------------
